@@ -17,12 +17,19 @@ namespace TxV.EvLog
 
 /-! ### schema -/
 
+/-- a JSON-serialisable raw value: dynamic fields are always ints, statics may be strings -/
+inductive Raw
+  | int (v : Int)
+  | str (s : String)
+deriving Repr, DecidableEq
+
 /-- the annotation of an event field, as far as `_convert_field` (`event.py:38-44`) looks at it:
-    an `enum.Enum` subclass (the list of member values), `bool`, or anything else (raw value kept) -/
+    an `enum.Enum` subclass (the list of member values: ints for an `IntEnum`, but any JSON value, e.g.
+    strings, for a plain `Enum` used in a `Static` field), `bool`, or anything else (raw value kept) -/
 inductive Kind
   | int
   | bool
-  | enum (members : List Int)
+  | enum (members : List Raw)
   | other
 deriving Repr, DecidableEq
 
@@ -31,12 +38,6 @@ structure FieldSpec where
   width : Nat
   signed : Bool
   kind : Kind
-deriving Repr, DecidableEq
-
-/-- a JSON-serialisable raw value: dynamic fields are always ints, statics may be strings -/
-inductive Raw
-  | int (v : Int)
-  | str (s : String)
 deriving Repr, DecidableEq
 
 structure StaticSpec where
@@ -159,13 +160,12 @@ inductive Val
   | int (v : Int)
   | str (s : String)
   | bool (b : Bool)
-  | enum (v : Int)
+  | enum (v : Raw)
 deriving Repr, DecidableEq
 
 /-- `_convert_field`: `Enum(raw)` raises `ValueError` for a non-member (→ `none`) -/
 def convert : Kind → Raw → Option Val
-  | .enum ms, .int v => if ms.contains v then some (.enum v) else none
-  | .enum _, .str _ => none
+  | .enum ms, r => if ms.contains r then some (.enum r) else none
   | .bool, .int v => some (.bool (v != 0))
   | .bool, .str s => some (.bool (s != ""))
   | _, .int v => some (.int v)
